@@ -21,6 +21,7 @@ def main():
     ap.add_argument("--seeded", action="store_true")
     ap.add_argument("--benign", action="store_true")
     ap.add_argument("--tier", default="quick")
+    ap.add_argument("--out")
     ap.add_argument("--skip-baseline", action="store_true")
     ap.add_argument("--skip-slow", action="store_true", help="with --all-checks: run C14/C15 only where expected")
     a = ap.parse_args()
@@ -38,7 +39,7 @@ def main():
             items.append({"name": m["name"], "expected": m["expected"], "patch": os.path.join(HERE, "mutants", m["name"] + ".diff")})
     if a.only:
         items = [i for i in items if a.only in i["name"]]
-    out_path = os.path.join(HERE, "results_seeded.json" if a.seeded else "results_benign.json" if a.benign else "results.json")
+    out_path = os.path.join(HERE, a.out) if a.out else os.path.join(HERE, "results_seeded.json" if a.seeded else "results_benign.json" if a.benign else "results.json")
     results = json.load(open(out_path)) if os.path.exists(out_path) and a.only else {}
     for it in items:
         wt = tempfile.mkdtemp(prefix="st-", dir="/tmp")
@@ -63,7 +64,10 @@ def main():
                 tier = it.get("tier") if (it.get("tier") and c in it["expected"]) else a.tier
                 rc, out = sh(["/venv/bin/python", os.path.join(ROOT, "check.py"), c, "--tier", tier, "--no-evidence"], env)
                 first = next((l for l in out.splitlines() if l.startswith("  monitor=")), "")
-                rec["checks"][c] = {"rc": rc, "verdict": {0: "held", 1: "VIOLATION", 2: "inconclusive"}.get(rc, str(rc)), "first": first.strip()[:200], "wall_s": round(time.time() - t0, 1), "tier": tier}
+                import re as _re
+                mm = _re.search(r"violations=(\d+)", out)
+                nviol = int(mm.group(1)) if mm else None
+                rec["checks"][c] = {"rc": rc, "verdict": {0: "held", 1: "VIOLATION", 2: "inconclusive"}.get(rc, str(rc)), "first": first.strip()[:200], "wall_s": round(time.time() - t0, 1), "tier": tier, "violations": nviol, "seed": os.environ.get("VERIF_SEED", "0")}
             rec["caught_by"] = [c for c, v in rec["checks"].items() if v["rc"] == 1]
         finally:
             subprocess.run(["git", "-C", "/repo", "worktree", "remove", "--force", wt])
